@@ -10,7 +10,7 @@ deciding check: end-to-end, real vs real, no model: parse -> format -> reparse /
                 normalised ASTs / compare bytecode / compare comment sequences, on grammar-generated
                 sources + std/*.qv + every parsing source string of quiver-tests/tests/*.rs.
                 Each failure is an impl-violation (source = replay, shrunk), unless its *input signature*
-                matches a known finding (F15..F19) whose status in known_findings.json is "known"."""
+                matches a known finding (F15..F19, F30..F41) whose status in known_findings.json is "known"."""
 import glob, hashlib, os, re
 from vplib import sexpr
 from vplib.common import REPO, VERIF
@@ -29,7 +29,7 @@ MANIFEST = dict(
          "real-vs-real metamorphic search over grammar-generated sources, std/*.qv and the test-suite sources.",
     design_ref="§5 C17",
     note="Trusted: Coq kernel, extraction (ExtrOcamlBasic), OCaml driver, Rust harness (incl. its own interpolation-aware comment scanner), "
-         "generators. Known findings F15-F19 (real formatter defects) are matched narrowly by input signature.",
+         "generators. Known findings F15-F19, F30-F41 (real formatter defects) are matched narrowly by input signature.",
     technique="Coq proof of the simplifier / string codec / layout models + model-code correspondence by differential execution + end-to-end metamorphic testing of the real formatter",
 )
 
@@ -42,16 +42,21 @@ KNOWN = {
     "F17": ("hole-comment", CK),                            # comment inside a string hole dropped
     "F18": ("multi-uspace", {"ast", "bc"}),                 # trailing Unicode space of a """ line stripped
     "F19": ("tail-block", {"ast", "bc"}),                   # trivia-kept block ending in a tail call
-    "F20": ("blank-line", {"idem:layout"}),                 # a blank line forces a break but is not kept -> 2nd format re-joins
-    "F21": ("two-comments", {"comments:reordered"}),        # dangling comments are emitted at the end of the file
-    "F22": ("two-comments", {"comments:merged"}),           # two trailing comments of one node land on one line
-    "F23": ("multi-pattern", {"ast"}),                      # a """ string pattern is re-rendered as "..." (StringStyle changes)
-    "F24": ("lower-tuple-type", {"reparse"}),               # `'e[...]` rendered as `e[...'e]`
-    "F25": ("partial-type-pattern", {"ast", "bc"}),         # `((j: 't))` rendered as `(j: 't)` = a different pattern
-    "F26": ("spawn-rich-function", {"ast", "bc", "reparse"}),   # `@#<'t>'int -> 'bin {..}` rendered with the `@type {..}` sugar
-    "F27": ("wrap-binding", {"ast", "bc"}),                 # wrap_breaking_body braces a binding/matching chain
-    "F28": ("comment-and-branches", IK),                    # a comment inside a multi-branch block (e.g. next to `=>`): the 2nd format wraps the consequence in braces / re-joins
-    "F29": ("spawn-container", {"panic"}),                  # `@[..]`, `@"s"`: format_program panics (format.rs:432 unreachable!)
+    "F30": ("blank-line", {"idem:layout"}),                 # a blank line forces a break but is not kept -> 2nd format re-joins
+    "F31": ("two-comments", {"comments:reordered"}),        # dangling comments are emitted at the end of the file
+    "F32": ("two-comments", {"comments:merged"}),           # two trailing comments of one node land on one line
+    "F33": ("multi-pattern", {"ast"} | IK),                      # a """ string pattern is re-rendered as "..." (StringStyle changes)
+    "F34": ("lower-tuple-type", {"reparse"}),               # `'e[...]` rendered as `e[...'e]`
+    "F35": ("partial-type-pattern", {"ast", "bc"}),         # `((j: 't))` rendered as `(j: 't)` = a different pattern
+    "F36": ("spawn-rich-function", {"ast", "bc", "reparse"}),   # `@#<'t>'int -> 'bin {..}` rendered with the `@type {..}` sugar
+    "F37": ("wrap-binding", {"ast", "bc"}),                 # wrap_breaking_body braces a binding/matching chain
+    "F38": (("comment-and-branches", "comment-near-arrow"), IK),                    # a comment inside a multi-branch block (e.g. next to `=>`): the 2nd format wraps the consequence in braces / re-joins
+    "F39": ("spawn-container", {"panic"}),                  # `@[..]`, `@"s"`: format_program panics (format.rs:432 unreachable!)
+    "F40": ("primitive-named-identifier", {"ast", "bc"}),   # `(<'int>)c`: a type-parameter pattern loses its angle brackets -> `('int)c` (primitive, not the parameter)
+    "F41": ("toplevel-type-binding", {"reparse", "ast", "bc"}),  # a statement `'d<'t> = <chain>` (type pattern binding) is re-read as a type alias
+    "F43": ("name-then-paren", {"reparse"}),               # `.. Name , (pat) = ..`: the comma becomes a newline and `Name\n(` no longer parses (tuple_name refuses a following `(` across whitespace)
+    "F44": ("has-comment", {"reparse"}),                    # a trailing comment is placed at the end of a line that is continued by `~>` (no comment allowed there): output does not re-parse
+    "F42": ("self-default-type-pattern", {"ast", "bc", "reparse"} | IK),  # the module default type `'` / `'<args>` inside a pattern is not rendered back faithfully
 }
 
 
@@ -104,7 +109,8 @@ def explained_by(ctx, info):
     together cover every failing check of this case. Returns the list of ids, or None."""
     ids, covered = [], set()
     for fid, (sig, kinds) in KNOWN.items():
-        if sig in info["sig"] and info["fails"] & kinds:
+        sigs = (sig,) if isinstance(sig, str) else sig
+        if any(x in info["sig"] for x in sigs) and info["fails"] & kinds:
             ids.append(fid)
             covered |= kinds
     if ids and info["fails"] <= covered:
